@@ -6,6 +6,7 @@ import (
 	"fmt"
 	"go/ast"
 	"go/token"
+	"os"
 	"sort"
 	"strconv"
 	"strings"
@@ -153,6 +154,15 @@ func genTLSTokens(repo string) (string, error) {
 		ws = append(ws, CoqString(w))
 	}
 	fmt.Fprintf(&b, "Definition tls_alpn_white : list string := %s.\n", CoqList(ws))
+
+	// NewTLSServerContextManager: does each provider get a config of its own?  (defective shape: the address of
+	// the range variable with pre-1.22 loop semantics, which every later iteration overwrites)
+	private, perr := providerCfgPrivate(repo)
+	if perr != nil {
+		ok = false
+		fmt.Fprintf(&b, "(* %s *)\n", strings.ReplaceAll(perr.Error(), "*)", "* )"))
+	}
+	fmt.Fprintf(&b, "Definition tls_provider_cfg_private : bool := %v.\n", private)
 	fmt.Fprintf(&b, "Definition TLSTokens_translator_ok := %v.\n", ok)
 	return b.String(), nil
 }
@@ -165,4 +175,84 @@ func exprString(e ast.Expr) string {
 		return exprString(x.X) + "." + x.Sel.Name
 	}
 	return "?"
+}
+
+func providerCfgPrivate(repo string) (bool, error) {
+	_, f, err := ParseGoFile(repo, "pkg/mtls/tls_context_manager.go")
+	if err != nil {
+		return false, err
+	}
+	fd := FindFunc(f, "", "NewTLSServerContextManager")
+	if fd == nil {
+		return false, fmt.Errorf("NewTLSServerContextManager not found")
+	}
+	perIteration := goVersionAtLeast122(repo)
+	result, found := false, false
+	ast.Inspect(fd.Body, func(n ast.Node) bool {
+		rs, isr := n.(*ast.RangeStmt)
+		if !isr {
+			return true
+		}
+		sel, iss := rs.X.(*ast.SelectorExpr)
+		if !iss || sel.Sel.Name != "TLSContexts" {
+			return true
+		}
+		val, _ := rs.Value.(*ast.Ident)
+		copied := false
+		for _, st := range rs.Body.List {
+			if as, isa := st.(*ast.AssignStmt); isa && as.Tok == token.DEFINE && len(as.Lhs) == 1 && len(as.Rhs) == 1 && val != nil {
+				l, _ := as.Lhs[0].(*ast.Ident)
+				r, _ := as.Rhs[0].(*ast.Ident)
+				if l != nil && r != nil && l.Name == val.Name && r.Name == val.Name {
+					copied = true
+				}
+			}
+			ast.Inspect(st, func(m ast.Node) bool {
+				call, isc := m.(*ast.CallExpr)
+				if !isc {
+					return true
+				}
+				id, isid := call.Fun.(*ast.Ident)
+				if !isid || id.Name != "NewProvider" || len(call.Args) != 2 {
+					return true
+				}
+				found = true
+				u, isu := call.Args[1].(*ast.UnaryExpr)
+				if !isu || u.Op != token.AND {
+					result = true // not an address at all (e.g. already a pointer element)
+					return true
+				}
+				if x, isx := u.X.(*ast.Ident); isx && val != nil && x.Name == val.Name {
+					result = copied || perIteration
+				} else {
+					result = true // address of something else (e.g. &c.TLSContexts[i])
+				}
+				return true
+			})
+		}
+		return true
+	})
+	if !found {
+		return false, fmt.Errorf("NewProvider call inside the TLSContexts loop not recognised")
+	}
+	return result, nil
+}
+
+func goVersionAtLeast122(repo string) bool {
+	b, err := os.ReadFile(repo + "/go.mod")
+	if err != nil {
+		return false
+	}
+	for _, line := range strings.Split(string(b), "\n") {
+		f := strings.Fields(line)
+		if len(f) == 2 && f[0] == "go" {
+			p := strings.Split(f[1], ".")
+			if len(p) >= 2 {
+				maj, _ := strconv.Atoi(p[0])
+				min, _ := strconv.Atoi(p[1])
+				return maj > 1 || (maj == 1 && min >= 22)
+			}
+		}
+	}
+	return false
 }
